@@ -529,4 +529,40 @@ theorem fastertrie_refines_spec_reconstruct (F : List Nat) (ops : List FOp2) (t 
 example : FHist2OK [3, 2] (some (FT.new [3, 2], [])) [.ins [(0, 1)], .ins [(0, 2), (1, 0)], .recon [(1, 0)] true [2, 1]] := by
   simp [FHist2OK, FOp2OK, fstep2, FT.insert, FT.new, specInsert, ValidPF, KeysAsc]
 
+
+/-! ### FilterMap<T, FasterTrie> -/
+
+def FMFInv (m : FMF) (es : Spec) : Prop :=
+  RIF m.trie es ∧ specIds es = List.range m.items.length ∧ m.trie.counter = m.items.length
+
+theorem FMFInv_new (F : List Nat) : FMFInv ⟨FT.new F, []⟩ [] := ⟨RIF_new F, rfl, rfl⟩
+
+theorem FMFInv_emplace {m : FMF} {es : Spec} (h : FMFInv m es) {pf : PF} (hv : ValidPF m.trie.F pf) (hne : pf ≠ []) (x : Nat) :
+    ∃ m', m.emplace pf x = some m' ∧ FMFInv m' (specInsert es m.items.length pf) := by
+  obtain ⟨hRI, hids, hc⟩ := h
+  obtain ⟨t', he, h'⟩ := RIF_insert hRI hv hne
+  refine ⟨⟨t', m.items ++ [x]⟩, by simp only [FMF.emplace, he, Option.map_some], ?_, ?_, ?_⟩
+  · rw [hc] at h'; exact h'
+  · simp only [specIds, specInsert, List.map_append, List.map_cons, List.map_nil, List.length_append,
+      List.length_cons, List.length_nil, List.range_succ]
+    rw [show List.map (fun x => x.fst) es = specIds es from rfl, hids]
+  · cases pf with
+    | nil => exact absurd rfl hne
+    | cons kv r =>
+      simp only [FT.insert, Option.some.injEq, Prod.mk.injEq] at he
+      rw [← he.1]
+      simp only [List.length_append, List.length_cons, List.length_nil]
+      rw [← hc]
+
+/-- **FilterMap over FasterTrie**: iterating the result of `filter(f)` visits, each exactly once, the items
+    emplaced with a key compatible with `f` -/
+theorem filtermapF_filter_spec {m : FMF} {es : Spec} (h : FMFInv m es) (f : List Nat) (hlen : f.length ≤ m.trie.F.length)
+    (hval : ∀ j, j < f.length → f.getD j 0 < m.trie.F.getD j 0) :
+    ∃ ids : List Nat, m.filter f = ids.map (fun id => m.items.getD id 0) ∧ ids.Nodup ∧
+      (∀ id, id ∈ ids ↔ id ∈ specFilter es (prefixPF 0 f)) ∧ ∀ id ∈ ids, id < m.items.length := by
+  refine ⟨m.trie.filter f, rfl, ft_filter_nodup h.1 f, fun id => ft_filter_mem h.1 f hlen hval id, fun id hid => ?_⟩
+  obtain ⟨e, he, _⟩ := (mem_specFilter es _ id).mp ((ft_filter_mem h.1 f hlen hval id).mp hid)
+  have := h.1.lt id e he
+  rw [h.2.2] at this; exact this
+
 end AITB.Trie
